@@ -88,6 +88,15 @@ def make_payload(kind, nrec, variant, sdir, rng):
     with open(os.path.join(root, "sub", "deeper", "ünï code.bin"), "wb") as f:
         f.write(rng.randbytes(max(0, nrec * CHUNK - 700)))
     os.chmod(os.path.join(root, "a.txt"), 0o640)
+    # several names for one content: a copy, a hard link (one inode, two names) and a symbolic link to a file of the tree (the
+    # sender reads through it): each name is a file of the tree the receiver must end up with
+    with open(os.path.join(root, "sub", "copy of a.txt"), "wb") as f:
+        f.write(b"hello\n")
+    if variant % 2 == 0:
+        os.link(os.path.join(root, "a.txt"), os.path.join(root, "sub", "a hard link.txt"))
+        os.link(os.path.join(root, "sub", "deeper", "ünï code.bin"), os.path.join(root, "z same inode.bin"))
+    if variant % 3 != 1:
+        os.symlink("a.txt", os.path.join(root, "latest.txt"))
     return os.path.basename(root), None
 
 
@@ -166,7 +175,7 @@ def run_case(tid, kind, nrec, variant, sig, chunk, rng, badhash=None):
         if kind == "file":
             equal = exists and X.snapshot(sdir)[what][:3] == snap.get(destname, (None,))[:3]
         else:
-            src_tree = X.tree_content(os.path.join(sdir, what))
+            src_tree = X.tree_content(os.path.join(sdir, what), read_view=True)
             equal = exists and os.path.isdir(dest_path) and X.tree_content(dest_path) == src_tree
             if equal:
                 # permissions of regular files survive
